@@ -11,6 +11,7 @@ import TonicModel.Lemmas.BalanceDebt
 import TonicModel.Lemmas.BalanceWitness
 import TonicModel.Lemmas.BalanceSpecMain
 import TonicModel.Lemmas.BalanceAcct
+import TonicModel.Lemmas.ReconnectAbandon
 /-
 C14 — A channel always answers and recovers when the peer comes back.
 Property theorems only; helper lemmas live in `Lemmas/Reconnect.lean`.
@@ -432,6 +433,83 @@ theorem C14_e2e_spec_unfixed_fails :
   revert this
   decide
 
+/-! ## calls the application abandons (dimension audit; harness kind `e2a`, finding C14-F1)
+
+A caller may drop the future of a call that is still waiting for a connection attempt (its own
+timeout around the call, a `select!`, a cancelled task). `tower::buffer`'s worker then forgets the
+request without touching the service (`worker.rs::poll_next_msg`), so `Reconnect` stays in
+`Connecting` with the attempt where it was; the NEXT request's `poll_ready` polls it on and gets
+its outcome. `Abandon.run` is a whole script over {call, peer drops the connection, abandoned call};
+`Spec.ReconnectAbandon` is the oracle written from the property text. -/
+
+/-- What an abandoned call leaves behind: the worker, waiting for readiness on its behalf, has
+started exactly one attempt (after noticing a dropped connection, if there was one) and is
+`Pending` on it; nothing is stored, nothing panics. For every state with nothing connected. -/
+theorem C14_abandoned_call_leaves_attempt_in_progress (r : R) (he : r.error = none) :
+    (r.st = .idle → drive r [.ok] = ({ r with st := .connecting, made := r.made + 1 }, [], .pending)) ∧
+    (∀ c x, r.st = .connected c →
+      drive r [.err x, .ok] = ({ r with st := .connecting, made := r.made + 1, hasBeen := true }, [], .pending)) :=
+  ⟨fun hs => drive_idle_starts r he hs, fun c x hs => drive_dead_starts r c x he hs⟩
+
+/-- … and what the NEXT request gets when that attempt fails (the code as found; finding C14-F1):
+the failure `e` of an attempt it did not make (`made` does not move) — whatever comes after in the
+script, in particular although the endpoint is reachable again; the state machine is then idle with
+nothing stored, so the request after that one makes a fresh attempt and is served
+(`rest = ok, ok, ok, …`). For every lazy or once-connected `Reconnect` with an attempt in progress. -/
+theorem C14_abandoned_attempt_failure_goes_to_next_call (r : R) (e : Nat) (rest : List Ans)
+    (he : r.error = none) (hs : r.st = .connecting) (hl : (r.hasBeen || r.isLazy) = true) :
+    serve r (.err e :: rest) = ({ r with st := .idle }, rest, .err e) ∧
+    (serve r (.err e :: rest)).1.made = r.made ∧
+    (serve (serve r (.err e :: .ok :: .ok :: .ok :: rest)).1 (serve r (.err e :: .ok :: .ok :: .ok :: rest)).2.1).2.2
+      = .resp (r.made + 1) := by
+  have h1 := serve_connecting_fails r e rest he hs hl
+  have h2 := serve_connecting_fails r e (.ok :: .ok :: .ok :: rest) he hs hl
+  refine ⟨h1, by rw [h1], ?_⟩
+  rw [h2]
+  have := serve_idle_connects { r with st := .idle } rest he rfl
+  simp only at this
+  rw [this]
+
+/-- When the attempt of the abandoned call succeeds, the next request is served by that very
+connection and no further attempt is made. -/
+theorem C14_abandoned_attempt_connection_is_used (r : R) (rest : List Ans)
+    (he : r.error = none) (hs : r.st = .connecting) :
+    serve r (.ok :: .ok :: rest) = ({ r with st := .connected r.made, hasBeen := true }, rest, .resp r.made) :=
+  serve_connecting_connects r rest he hs
+
+/-- TARGET (the property as stated, false of the code as found — see `_fails` below): for every
+script with abandoned calls the run satisfies every clause of the oracle.
+PROVED INSTEAD, for EVERY script (any attempt outcomes, any sequence of calls, peer drops and
+abandoned calls, lazy or eager): every clause holds except
+`failure-reported-only-to-the-call-that-triggered-the-attempt` — definite results, UNAVAILABLE
+class, responses only from live connections, success whenever the endpoint is reachable and no
+failure of an abandoned attempt is outstanding, an abandoned call starts exactly one attempt, and
+where the excepted clause fails the error handed out is exactly the abandoned attempt's own
+failure, UNAVAILABLE, once (the companion clause). -/
+theorem C14_abandon_spec_partial (isLazy : Bool) (outs : List Outcome) (ops : List AOp) :
+    Spec.ReconnectAbandon.holdsButStrict isLazy outs ops (Abandon.run isLazy outs ops) = true :=
+  Abandon.run_holdsButStrict isLazy outs ops
+
+/-- The property as stated does NOT hold of the code as found: lazy channel, first attempt
+refused, second would be accepted; the first call is abandoned while its attempt is in progress;
+the second call — issued when the endpoint is reachable — is handed the first attempt's failure.
+Witness in the harness corpus (`e2a L FS Ac`); known finding C14-F1. -/
+theorem C14_abandon_spec_fails :
+    ¬ (∀ (isLazy : Bool) (outs : List Outcome) (ops : List AOp),
+        Spec.ReconnectAbandon.holdsA isLazy outs ops (Abandon.run isLazy outs ops) = true) := by
+  intro h
+  have := h true [.refuse, .accept] [.abandon, .call]
+  revert this
+  decide
+
+/-- Scripts in which the attempt of every abandoned call succeeds are not affected: e.g. every
+attempt accepted. (Instance; the general statement is the partial theorem plus the companion
+clause, which ties a violation to a failed attempt.) -/
+theorem C14_abandon_spec_holds_when_attempts_succeed :
+    Spec.ReconnectAbandon.holdsA true [.accept, .accept, .accept] [.abandon, .die, .call, .die, .abandon, .call]
+      (Abandon.run true [.accept, .accept, .accept] [.abandon, .die, .call, .die, .abandon, .call]) = true := by
+  decide
+
 /-! ## load-balanced channels (`Channel::balance_list`, `Channel::balance_channel`)
 
 `Balance.call` is one request through the buffer worker and tower's p2c `Balance` over the
@@ -755,5 +833,17 @@ example : Spec.Balance.holds [.insert 0, .call] [.hang] = false := by decide
 example : Spec.Balance.holds [.insert 0, .call, .up 0, .call] [.error 14, .error 14] = false := by decide
 example : Spec.Balance.holds [.insert 0, .call] [.error 2] = false := by decide
 example : Spec.Balance.holds [.call] [.hang] = true := by decide
+
+-- abandoned calls: the run, the witness of C14-F1, and an oracle that can fail otherwise too
+example : Abandon.run true [.refuse, .accept] [.abandon, .call, .call] =
+    { build := .ok, buildAttempts := 0, evs := [.abandoned 1, .call (.error 14 (some 1)) 1, .call (.resp 2) 2] } := by decide
+example : Abandon.run false [.accept, .accept] [.die, .abandon, .die, .call] =
+    { build := .ok, buildAttempts := 1, evs := [.die, .abandoned 2, .die, .call (.resp 2) 2] } := by decide
+example : Spec.ReconnectAbandon.holdsButStrict true [.accept] [.abandon, .call]
+    { build := .ok, buildAttempts := 0, evs := [.abandoned 1, .call (.error 14 none) 1] } = false := by decide
+example : Spec.ReconnectAbandon.holdsButStrict true [.refuse] [.abandon, .call]
+    { build := .ok, buildAttempts := 0, evs := [.abandoned 1, .call .hang 1] } = false := by decide
+example : ∃ r : R, r.error = none ∧ r.st = .connecting ∧ (r.hasBeen || r.isLazy) = true :=
+  ⟨{ R.init true with st := .connecting, made := 1 }, rfl, rfl, rfl⟩
 
 end C14
